@@ -195,34 +195,38 @@ def model_ast_string(f, i=0):
     raise ValueError(k)
 
 
-def run_model(cases, lits_by_case):
+def run_model(cases, lits_by_case, chunk=150):
     """cases: list of (text bytes, [doc bytes]); lits_by_case: list of (num_lits, str_lits).
     returns per case dict(tokens, ast, verdicts)"""
-    toks = [3, len(cases)]
-    for (text, docs), (nl, sl) in zip(cases, lits_by_case):
-        c = model_case_toks(text, docs, nl, sl)
-        toks += [len(c)] + c
-    lines, rc, err = run_oracle(' '.join(map(str, toks)) + '\n', timeout=1200)
-    out = []
-    cur = []
-    for ln in lines:
-        f = list(map(int, ln.split()))
-        if f == [777]:
-            out.append(cur)
-            cur = []
-        else:
-            cur.append(f)
     res = []
-    for c in out:
-        d = {'tokens': None, 'ast': None, 'verdicts': None}
-        for f in c:
-            if f[0] == 1:
-                d['tokens'] = parse_model_tokens_line(f)
-            elif f[0] == 2:
-                d['ast'] = model_ast_string(f, 2)[0] if f[1] == 0 else ('ERR' if f[1] == 1 else 'FUEL')
-            elif f[0] == 3:
-                d['verdicts'] = 'B' if f[1:] == [9] else ''.join('FTE'[x] for x in f[2:])
-        res.append(d)
+    for start in range(0, len(cases), chunk):
+        part = cases[start:start + chunk]
+        toks = [3, len(part)]
+        for (text, docs), (nl, sl) in zip(part, lits_by_case[start:start + chunk]):
+            c = model_case_toks(text, docs, nl, sl)
+            toks += [len(c)] + c
+        lines, rc, err = run_oracle(' '.join(map(str, toks)) + '\n', timeout=1200)
+        out = []
+        cur = []
+        for ln in lines:
+            f = list(map(int, ln.split()))
+            if f == [777]:
+                out.append(cur)
+                cur = []
+            else:
+                cur.append(f)
+        while len(out) < len(part):
+            out.append([])          # the oracle died: reported as missing output
+        for c in out:
+            d = {'tokens': None, 'ast': None, 'verdicts': None}
+            for f in c:
+                if f[0] == 1:
+                    d['tokens'] = parse_model_tokens_line(f)
+                elif f[0] == 2:
+                    d['ast'] = model_ast_string(f, 2)[0] if f[1] == 0 else ('ERR' if f[1] == 1 else 'FUEL')
+                elif f[0] == 3:
+                    d['verdicts'] = 'B' if f[1:] == [9] else ''.join('FTE'[x] for x in f[2:])
+            res.append(d)
     return res
 
 
